@@ -44,8 +44,8 @@ MANIFEST = {
 # ---------------------------------------------------------------------------------------------------------------
 # statement model.  A statement is a tuple; ("def", name, variant) etc.  Blocks: ("block", kind, arms) with arms = tuple of stmt tuples per arm.
 
-DEF_VARIANTS = ["plain", "doc", "async", "cached", "unknown-deco"]
-CLASS_DEF_VARIANTS = ["plain", "doc", "staticmethod", "classmethod", "property"]
+DEF_VARIANTS = ["plain", "doc", "async", "cached", "unknown-deco", "async-cached"]
+CLASS_DEF_VARIANTS = ["plain", "doc", "staticmethod", "classmethod", "property", "async", "async-classmethod"]
 ASSIGN_VARIANTS = ["assign", "assign-doc", "annassign", "annonly"]
 IMPORT_FORMS = ["import n", "import n.x", "import x.y as n", "from m import n", "from m import x as n"]
 ALL_FORMS = ['__all__ = ["a"]', '__all__ = ["a", "b"]', '__all__ += ["b"]']
@@ -169,15 +169,17 @@ def render_stmt(r: R, s, ind, ctx, scope):
     ev = []
     if k == "def":
         _, n, v = s
-        deco = {"cached": "@functools.cache", "unknown-deco": "@some.decorator", "staticmethod": "@staticmethod", "classmethod": "@classmethod", "property": "@property"}.get(v)
-        labels = {"cached": {"cached"}, "staticmethod": {"staticmethod"}, "classmethod": {"classmethod"}, "property": {"property"}, "async": {"async"}}.get(v, set())
+        deco = {"cached": "@functools.cache", "unknown-deco": "@some.decorator", "staticmethod": "@staticmethod", "classmethod": "@classmethod", "property": "@property",
+                "async-cached": "@functools.cache", "async-classmethod": "@classmethod"}.get(v)
+        labels = {"cached": {"cached"}, "staticmethod": {"staticmethod"}, "classmethod": {"classmethod"}, "property": {"property"}, "async": {"async"},
+                  "async-cached": {"async", "cached"}, "async-classmethod": {"async", "classmethod"}}.get(v, set())
         first = len(r.lines) + 1
         if deco:
             r.emit(deco, ind)
         params = "self" if scope == "class" and v not in ("staticmethod",) else ""
-        if v == "classmethod":
+        if v.endswith("classmethod"):
             params = "cls"
-        head = ("async def " if v == "async" else "def ") + f"{n}({params}):"
+        head = ("async def " if v.startswith("async") else "def ") + f"{n}({params}):"
         doc = None
         init_events = []
         if v == "doc":
